@@ -66,6 +66,19 @@ func analyse(b *Built, log []Event, final common.Hash) *Analysis {
 		a.headGone = append(a.headGone, !hdr[lb])
 		a.lbSetAt = append(a.lbSetAt, lastLB)
 	}
+	// a run of >= 3 consecutive non-empty trie batches: one Commit that was cut by IdealBatchSize (Stop commits at most
+	// three tries, the later ones mostly empty)
+	runLen := 0
+	for i := range a.trieEv {
+		if a.trieEv[i] && len(log[i].Ws) > 100 {
+			runLen++
+			if runLen == 2 {
+				a.Counts["trie-commit-spanning-several-flushes"]++
+			}
+		} else {
+			runLen = 0
+		}
+	}
 	// import segments
 	for i := 0; i < len(log); i++ {
 		ev := &log[i]
